@@ -1310,6 +1310,61 @@ fn fam_memo(_func: Option<&str>, only: Option<u64>) {
             }
         }
     }
+    // second part: subtype queries between mutually recursive types that alternate between tuples and objects
+    // (both memo tables are involved), two in sequence against one context. One-sided definite oracle: an answer
+    // `true` although a finite value is a member of the left type and not of the right one is wrong.
+    let mixed: Vec<Vec<(&'static str, RT)>> = vec![
+        vec![
+            ("T1", RT::Tup(vec![RT::Or(vec![RT::Ref("U1"), RT::Null]), RT::Num], None)), ("U1", RT::Obj(vec![("next", RT::Ref("T1"), true)])),
+            ("T2", RT::Tup(vec![RT::Or(vec![RT::Ref("U2"), RT::Null]), RT::Str], None)), ("U2", RT::Obj(vec![("next", RT::Ref("T2"), true)])),
+        ],
+        vec![
+            ("T1", RT::Tup(vec![RT::Num], Some(b(RT::Ref("U1"))))), ("U1", RT::Obj(vec![("next", RT::Or(vec![RT::Ref("T1"), RT::Null]), true)])),
+            ("T2", RT::Tup(vec![RT::Num], Some(b(RT::Ref("U2"))))), ("U2", RT::Obj(vec![("next", RT::Or(vec![RT::Ref("T2"), RT::Str]), true)])),
+        ],
+    ];
+    let atoms = vec![RVal::Null, RVal::Num(1), RVal::Str("a")];
+    let mut mv: Vec<RVal> = atoms.clone();
+    for _ in 0..2 {
+        let mut next = atoms.clone();
+        next.push(RVal::List(vec![]));
+        for a in &mv { next.push(RVal::List(vec![a.clone()])); next.push(RVal::Obj(vec![("next", a.clone())])); }
+        for a in &mv { for c in &mv { next.push(RVal::List(vec![a.clone(), c.clone()])); } }
+        let mut uniq: Vec<RVal> = vec![];
+        for v in next.into_iter() { if !uniq.contains(&v) { uniq.push(v); } }
+        mv = uniq;
+    }
+    for defs in &mixed {
+        let named: Vec<NamedSchema> = defs.iter().map(|(n, t)| NamedSchema { name: rv_uuid(n), schema: rt_to_runtype(t) }).collect();
+        let names: Vec<&'static str> = defs.iter().map(|(n, _)| *n).collect();
+        let mut pairs: Vec<(&'static str, &'static str)> = vec![];
+        for a in &names { for c in &names { if a != c { pairs.push((*a, *c)); } } }
+        let mut seqs: Vec<Vec<(&'static str, &'static str)>> = vec![];
+        for p1 in &pairs { seqs.push(vec![*p1]); for p2 in &pairs { seqs.push(vec![*p1, *p2]); } }
+        for sq in seqs {
+            if !rep.want() { continue; }
+            let nrefs: Vec<&NamedSchema> = named.iter().collect();
+            let mut ctx = SemTypeContext::new();
+            let mut answers: Vec<((&'static str, &'static str), bool)> = vec![];
+            let mut refused = false;
+            for (a, c) in &sq {
+                let ta = match rt_to_runtype(&RT::Ref(a)).to_sem_type(&nrefs, &mut ctx) { Ok(x) => x, Err(_) => { refused = true; break; } };
+                let tc = match rt_to_runtype(&RT::Ref(c)).to_sem_type(&nrefs, &mut ctx) { Ok(x) => x, Err(_) => { refused = true; break; } };
+                match ta.is_subtype(&tc, &mut ctx) { Ok(r) => answers.push(((*a, *c), r)), Err(_) => { refused = true; break; } }
+            }
+            if refused { continue; }
+            for ((a, c), said) in &answers {
+                if *said {
+                    if let Some(w) = mv.iter().find(|v| rt_member(&RT::Ref(a), v, defs) && !rt_member(&RT::Ref(c), v, defs)) {
+                        rep.fail(format!("definitions {:?}; subtype queries in this order against one context: {:?}", defs, sq),
+                                 format!("answers {:?}: {} <: {} is reported TRUE", answers, a, c),
+                                 format!("{:?} is a member of {} and not of {}", w, a, c));
+                        break;
+                    }
+                }
+            }
+        }
+    }
     rep.print();
 }
 
